@@ -17,6 +17,9 @@ class PathCache:
         loop_bound = self.default if loop_bound is None else loop_bound
         if inline_static:
             inline = set(inline) | static_callees(self.prog, self.eff, fname)
+        fw = forward_targets(self.prog, self.eff, fname)
+        if fw:
+            inline = set(inline) | fw
         key = (fname, loop_bound, tuple(sorted(inline)))
         if key not in self._c:
             self._c[key] = P.Executor(self.prog, self.eff, inline=inline, loop_bound=loop_bound).run(fname)
@@ -24,6 +27,43 @@ class PathCache:
 
 
 static_callees = P.static_callees
+
+_FW = {}
+
+
+def forward_targets(prog, eff, fname):
+    """A public operation written as a forwarder: it returns what an internal routine of the library (the repository's own
+    naming convention: a leading underscore, never part of the documented API) returns, having handed it its own parameters.  Such a
+    routine is the operation's body in another place - two siblings sharing one implementation - and is analysed in place, with
+    its own unit-internal helpers."""
+    key = (id(prog), fname)
+    if key in _FW:
+        return _FW[key]
+    _FW[key] = set()
+    f = prog.funcs.get(fname)
+    out = set()
+    if f is not None and f.blocks and not fname.startswith("_"):
+        from ir import Inst, Arg, strip_casts
+        for r in f.all_insts():
+            if r.op != "ret" or not r.operands:
+                continue
+            vals, seen = [r.operands[0]], set()
+            while vals:
+                v = strip_casts(vals.pop(), ("bitcast", "zext", "trunc"))
+                if not isinstance(v, Inst) or v.id in seen:
+                    continue
+                seen.add(v.id)
+                if v.op == "phi":
+                    vals.extend(v.operands)
+                elif v.op == "call" and v.callee and v.callee.startswith("_") and v.callee in prog.funcs and prog.funcs[v.callee].blocks:
+                    g = v.callee
+                    nparam = sum(1 for a in v.operands if isinstance(strip_casts(a), Arg))
+                    if nparam >= 1 and g not in eff.transitive_callees(g) and not g.startswith(("_cbor_malloc", "_cbor_realloc", "_cbor_free")) and \
+                            g not in P.OPAQUE and g not in TAKES_REF:
+                        out.add(g)
+                        out |= static_callees(prog, eff, g)
+    _FW[key] = out
+    return out
 
 
 def base_of(t):
